@@ -8,6 +8,7 @@ import (
 	"fmt"
 	"go/types"
 	"math/big"
+	"regexp"
 	"strings"
 
 	"golang.org/x/tools/go/ssa"
@@ -45,8 +46,16 @@ var flatCache = map[string][]Leaf{}
 
 var sizes = types.SizesFor("gc", "amd64")
 
+var aliasRe = regexp.MustCompile(`\b(byte|rune)\b`)
+
 func typeKey(t types.Type) string {
-	return types.TypeString(t.Underlying(), nil)
+	s := types.TypeString(t.Underlying(), nil)
+	return aliasRe.ReplaceAllStringFunc(s, func(m string) string {
+		if m == "byte" {
+			return "uint8"
+		}
+		return "int32"
+	})
 }
 
 func isNamed(t types.Type, pkg, name string) bool {
@@ -149,7 +158,7 @@ func fieldLeafRange(st *types.Struct, i int) (int, int) {
 
 type unsupportedErr struct{ msg string }
 
-func (u unsupportedErr) Error() string { return "outside subset: " + u.msg }
+func (u unsupportedErr) Error() string      { return "outside subset: " + u.msg }
 func unsupported(msg string) unsupportedErr { return unsupportedErr{msg} }
 
 // ---------------------------------------------------------------------------
